@@ -198,6 +198,31 @@ theorem foldl_add1_mem (vs : List Nat) (s : S) (h : SInv s) (v : Nat) :
     · rw [if_neg hx]; simp only [List.mem_append, List.mem_cons, List.not_mem_nil, or_false]
       exact or_assoc
 
+theorem add_slice (vs : List Nat) (s : S) (h : SInv s) :
+    (add s vs).l = vs.foldl (fun l v => if v ∈ l then l else l ++ [v]) s.l := by
+  unfold add
+  induction vs generalizing s with
+  | nil => rfl
+  | cons v vs ih =>
+    simp only [List.foldl_cons]
+    rw [ih _ (add1_inv s v h), add1_slice s v h]
+
+theorem step_spec (s : S) (o : Op) (h : SInv s) : SInv (step s o) ∧ (step s o).l = specStep s.l o := by
+  cases o with
+  | add vs => exact ⟨add_inv s vs h, add_slice vs s h⟩
+  | without vs => exact ⟨without_inv s vs h, rfl⟩
+
+theorem run_spec (ops : List Op) : SInv (run ops) ∧ (run ops).l = specRun ops := by
+  have key : ∀ (s : S) (l : List Nat), SInv s → s.l = l →
+      SInv (ops.foldl step s) ∧ (ops.foldl step s).l = ops.foldl specStep l := by
+    induction ops with
+    | nil => intro s l a b; exact ⟨a, b⟩
+    | cons o ops ih =>
+      intro s l a b
+      obtain ⟨c, d⟩ := step_spec s o a
+      exact ih _ _ c (by rw [d, b])
+  exact key {} [] ⟨by simp, by simp⟩ rfl
+
 end Rxn.OSet
 
 namespace Rxn.SortedMap
@@ -341,5 +366,51 @@ theorem delete_spec (s : M) (k : Nat) (h : MInv s) :
         | none => rfl
         | some x => rw [hl] at hnone; cases hnone
       · rw [if_neg he]; rfl
+
+theorem ensureSorted_get (s : M) (k : Nat) : get (ensureSorted s) k = get s k := rfl
+
+theorem step_spec (s : M) (o : Op) (m : Nat → Option Nat) (h : MInv s) (hm : ∀ k, get s k = m k) :
+    MInv (step s o) ∧ ∀ k, get (step s o) k = specStep m o k := by
+  cases o with
+  | set k v =>
+    refine ⟨set_inv s k v h, fun k' => ?_⟩
+    show get (set s k v).2 k' = _
+    rw [get_set]; simp only [specStep, hm]
+  | delete k =>
+    refine ⟨delete_inv s k h, fun k' => ?_⟩
+    show get (delete s k).2 k' = _
+    rw [(delete_spec s k h).2 k']; simp only [specStep, hm]
+  | keys => exact ⟨ensureSorted_inv s h, fun k => hm k⟩
+
+theorem run_spec (ops : List Op) : MInv (run ops) ∧ ∀ k, get (run ops) k = specRun ops k := by
+  have key : ∀ (s : M) (m : Nat → Option Nat), MInv s → (∀ k, get s k = m k) →
+      MInv (ops.foldl step s) ∧ ∀ k, get (ops.foldl step s) k = ops.foldl specStep m k := by
+    induction ops with
+    | nil => intro s m a b; exact ⟨a, b⟩
+    | cons o ops ih =>
+      intro s m a b
+      obtain ⟨c, d⟩ := step_spec s o m a b
+      exact ih _ _ c d
+  exact key {} _ ⟨by simp, by intro k; simp [lookup]⟩ (by intro k; simp [get, lookup])
+
+/-- `All()` lists exactly the map's entries in ascending key order and `Values()` their values (the `getD 0` of the
+model never fires) -/
+theorem all_spec (s : M) (h : MInv s) :
+    (all s).1.map Prod.fst = (keys s).1 ∧ (∀ e ∈ (all s).1, get s e.1 = some e.2) ∧
+    (values s).1 = (all s).1.map Prod.snd := by
+  have hs := ensureSorted_inv s h
+  refine ⟨?_, ?_, ?_⟩
+  · simp [all, keys, List.map_map, Function.comp_def]
+  · intro e he
+    simp only [all, List.mem_map] at he
+    obtain ⟨k, hk, rfl⟩ := he
+    have := (hs.same k).mp hk
+    simp only [get]
+    show lookup s.m k = some ((lookup s.m k).getD 0)
+    have h2 : (lookup s.m k).isSome = true := this
+    cases hl : lookup s.m k with
+    | none => rw [hl] at h2; cases h2
+    | some v => rfl
+  · simp [all, values, List.map_map, Function.comp_def]
 
 end Rxn.SortedMap
